@@ -59,7 +59,8 @@ ENGINES = {
                        "--wrap=pthread_mutex_timedlock,--wrap=pthread_mutex_clocklock,"
                        "--wrap=pthread_rwlock_rdlock,--wrap=pthread_rwlock_wrlock,--wrap=pthread_rwlock_tryrdlock,"
                        "--wrap=pthread_rwlock_trywrlock,--wrap=pthread_rwlock_unlock,"
-                       "--wrap=pthread_spin_lock,--wrap=pthread_spin_trylock,--wrap=pthread_spin_unlock,--wrap=sched_yield"],
+                       "--wrap=pthread_spin_lock,--wrap=pthread_spin_trylock,--wrap=pthread_spin_unlock,--wrap=sched_yield,"
+                       "--wrap=__cxa_guard_acquire,--wrap=__cxa_guard_release,--wrap=__cxa_guard_abort"],
                    variants=[(s, ["-DNITRO_LOG_MIN_SEVERITY=" + s, "-DLOGSIM_MIN=%d" % i])
                              for i, s in enumerate(SEVS)],
                    probes=[("LS_HAVE_CALLABLE_LIT", "sim/logsim/probe_callable_lit.cpp"),
